@@ -173,16 +173,34 @@ Definition up_content (F : format) (now : bytes) (p : plan) : bytes :=
 (** ** readers *)
 
 (** bufio.Scanner with ScanLines: split at "\n", drop one trailing "\r" per line, a final line
-    without newline is a line if non-empty.  (The 64 KiB token limit of bufio.Scanner — a longer
-    line silently ends the loop, sc.Err() is not checked — is outside the model.) *)
+    without newline is a line if non-empty.  bufio.MaxScanTokenSize = 64 KiB: when 65536 bytes
+    have been read without a newline the scanner fails with ErrTooLong, [sc.Scan()] returns false
+    and the loops of GooseFile/DBMateFile.StmtDecls simply end ([sc.Err()] is never checked): the
+    lines before the long one are all the reader sees.  [cnt] = bytes of the current line. *)
 Definition drop_cr (l : bytes) : bytes :=
   match rev l with 13%N :: r => rev r | _ => l end.
-Fixpoint lines_acc (s : bytes) (cur : bytes) : list bytes :=
+Definition MAX_LINE : N := 65535.
+Fixpoint lines_acc (s : bytes) (cur : bytes) (cnt : N) : list bytes :=
   match s with
   | [] => match cur with [] => [] | _ => [drop_cr (rev cur)] end
-  | b :: t => if N.eqb b 10 then drop_cr (rev cur) :: lines_acc t [] else lines_acc t (b :: cur)
+  | b :: t =>
+    if N.eqb b 10 then drop_cr (rev cur) :: lines_acc t [] 0
+    else if (MAX_LINE <=? cnt)%N then []
+    else lines_acc t (b :: cur) (cnt + 1)
   end.
-Definition lines (s : bytes) : list bytes := lines_acc s [].
+Definition lines (s : bytes) : list bytes := lines_acc s [] 0.
+
+(** the same split without the token limit (specification vocabulary of the theorems: the
+    conditions [dbmate_ok] / [goose_change_ok] are stated over it, together with [short]) *)
+Fixpoint ulines_acc (s : bytes) (cur : bytes) : list bytes :=
+  match s with
+  | [] => match cur with [] => [] | _ => [drop_cr (rev cur)] end
+  | b :: t => if N.eqb b 10 then drop_cr (rev cur) :: ulines_acc t [] else ulines_acc t (b :: cur)
+  end.
+Definition ulines (s : bytes) : list bytes := ulines_acc s [].
+(** every line fits bufio.Scanner's buffer *)
+Definition short (s : bytes) : bool :=
+  forallb (fun l => (N.of_nat (length l) <=? MAX_LINE)%N) (ulines s).
 
 (** strings.Contains *)
 Definition contains (s p : bytes) : bool := match index_of s p with Some _ => true | None => false end.
